@@ -231,8 +231,10 @@ Qed.
    of the lattice (plaquettes tile the torus, C01), not of the plotting code — "exactly one"
    is proved as: all of the area / every point is drawn (at least once) and each point of the
    unwrapped plaquette reaches the open cell under one offset only (C16_offset_unique);
-   C16_clip_halfplane_sound needs the clipped polygon to be strictly convex (decidable,
-   strictly_convexb; not derived from the input in general); that area2 of a convex
+   C16_clip_halfplane_sound needs the clipped polygon to be strictly convex — derived from the
+   input for strictly convex polygons in general position further down (C16_clip_halfplane_exact,
+   C16_cell_exact); convex polygons with collinear or repeated vertices, or with a vertex on a
+   cell line, only have the inclusion C16_clip_halfplane_complete; that area2 of a convex
    anticlockwise polygon is twice the Lebesgue measure of its region is the definition of area
    used here (no measure theory). ====================================================== *)
 From Koala Require Import Proofs.PolyAreaFacts Proofs.PolyCellFacts Proofs.PolyRegionFacts Proofs.PlaqCoverFacts.
@@ -435,3 +437,86 @@ Theorem C16_plaq_polygons_cover_pointwise : forall (L : plat) (pl : plaq) (r : p
   In (ptranslate pts (zpoint (dx, dy))) (plaq_polygons L pl).
 Proof. exact plaq_polygons_cover_pointwise. Qed.
 Print Assumptions C16_plaq_polygons_cover_pointwise.
+
+(* ---- EXACT regions (Proofs/PolyStrictFacts.v, PolyExactFacts.v): for a strictly convex polygon in
+   general position the hypothesis of C16_clip_halfplane_sound on the OUTPUT is discharged — the
+   clipped polygon is strictly convex again — so all hypotheses are on the input polygon ---- *)
+From Koala Require Import Proofs.PolyStrictFacts Proofs.PolyExactFacts.
+
+Theorem C16_clip_strictly_convex : forall (xaxis : bool) (v : Q) (ge : bool) (P : polygon),
+  convex_ccw P -> strictly_convex P -> generic_line xaxis v P -> strictly_convex (sh_clip1 xaxis v ge P).
+Proof. exact clip_strictly_convex. Qed.
+Print Assumptions C16_clip_strictly_convex.
+
+(* clip_halfplane_sound + complete: the region of the clipped polygon is exactly the
+   intersection (no vertex on the clip line, one vertex inside the half-plane) *)
+Theorem C16_clip_halfplane_exact : forall (xaxis : bool) (v : Q) (ge : bool) (P : polygon) (p : point),
+  convex_ccw P -> strictly_convex P -> generic_line xaxis v P ->
+  (exists w, In w P /\ hp_inside xaxis v ge w = true) ->
+  (in_poly (sh_clip1 xaxis v ge P) p <-> in_poly P p /\ hp_inside xaxis v ge p = true).
+Proof. exact clip_halfplane_exact. Qed.
+Print Assumptions C16_clip_halfplane_exact.
+
+(* the unit cell (apply it to a drawn translate Q0 = ptranslate pts (zpoint d)): a point is in the
+   region of clip_polygon Q0 iff it is a point of Q0 inside the closed cell.  General position: no
+   vertex on a cell line, no cell corner on the line of an edge; the piece is non-empty (it is
+   when clipped_area2 Q0 is not 0). *)
+Theorem C16_cell_exact : forall (Q0 : polygon) (p : point),
+  convex_ccw Q0 -> strictly_convex Q0 ->
+  generic_line true 0 Q0 -> generic_line true 1 Q0 -> generic_line false 0 Q0 -> generic_line false 1 Q0 ->
+  no_corner_on_boundary Q0 -> clip_polygon Q0 <> [] ->
+  (in_poly (clip_polygon Q0) p <-> in_poly Q0 p /\ in_unit_square p).
+Proof. exact cell_exact. Qed.
+Print Assumptions C16_cell_exact.
+
+Theorem C16_cell_strictly_convex : forall Q0 : polygon,
+  convex_ccw Q0 -> strictly_convex Q0 ->
+  generic_line true 0 Q0 -> generic_line true 1 Q0 -> generic_line false 0 Q0 -> generic_line false 1 Q0 ->
+  no_corner_on_boundary Q0 -> convex_ccw (clip_polygon Q0) /\ strictly_convex (clip_polygon Q0).
+Proof. exact cell_strictly_convex. Qed.
+Print Assumptions C16_cell_strictly_convex.
+
+(* the same with all hypotheses as one executable test *)
+Theorem C16_cell_exact_checked : forall (Q0 : polygon) (p : point), cell_hypsb Q0 = true ->
+  (in_poly (clip_polygon Q0) p <-> in_poly Q0 p /\ in_unit_square p).
+Proof. exact cell_exact_checked. Qed.
+Print Assumptions C16_cell_exact_checked.
+
+(* non-vacuity: every drawn translate of the hexagon around the corner (1,1) satisfies the
+   hypotheses of C16_cell_exact; the four clipped pieces have 5, 4, 5 and 4 vertices *)
+Example C16_cell_exact_nonvacuous :
+  Forall (fun Q0 => cell_hypsb Q0 = true) ex_hex_drawn /\
+  map (fun Q0 => length (clip_polygon Q0)) ex_hex_drawn = [5; 4; 5; 4]%nat.
+Proof. split; [repeat (apply Forall_cons || apply Forall_nil)|]; vm_compute; reflexivity. Qed.
+
+(* ---- the plaquette clause pointwise (Proofs/PlaqPointFacts.v): "every point of the unit cell
+   inside a selected plaquette is covered by a drawn polygon" — r a point of the unwrapped
+   plaquette, (dx,dy) ANY integer offset bringing it into the open cell: the translate by (dx,dy)
+   is drawn and r+(dx,dy) lies in the region of its clipped piece.  Strictly convex plaquettes,
+   general position.  ("by exactly one": the offset is unique, C16_offset_unique; that pieces of
+   DIFFERENT translates do not overlap is the lattice's tiling property, not proved here.) ---- *)
+From Koala Require Import Proofs.PlaqPointFacts.
+Theorem C16_plaquette_point_covered : forall (pts : polygon) (r : point) (dx dy : Z),
+  convex_ccw pts -> strictly_convex pts ->
+  off_line pts true 0 -> off_line pts true 1 -> off_line pts false 0 -> off_line pts false 1 ->
+  has_cell_vertex pts -> in_block pts ->
+  in_poly pts r -> in_open_cell (padd r (zpoint (dx, dy))) ->
+  exists Q0, In Q0 (replicate_polygon pts (pads (poly_lines pts) true) (pads (poly_lines pts) false)) /\
+             Q0 = ptranslate pts (zpoint (dx, dy)) /\
+             in_poly Q0 (padd r (zpoint (dx, dy))) /\
+             in_poly (clip_polygon Q0) (padd r (zpoint (dx, dy))).
+Proof. exact plaquette_point_covered. Qed.
+Print Assumptions C16_plaquette_point_covered.
+
+(* non-vacuity: the point (41/40, 21/20) of the hexagon (its centre) falls into the open cell under
+   the offset (-1,-1) *)
+Example C16_plaquette_point_covered_nonvacuous :
+  in_poly ex_hex (41#40, 21#20) /\ in_open_cell (padd (41#40, 21#20) (zpoint (-1, -1)%Z)) /\
+  In (ptranslate ex_hex (zpoint (-1, -1)%Z)) ex_hex_drawn.
+Proof.
+  split.
+  { intros e He. unfold edges, ex_hex in He. cbn [last edges_from In] in He.
+    repeat (destruct He as [<-|He]; [unfold left_of; cbn [fst snd]; apply Qleb_iff; vm_compute; reflexivity|]). destruct He. }
+  split; [unfold in_open_cell, padd, zpoint, px, py; cbn [fst snd]; repeat split; apply Qltb_iff; vm_compute; reflexivity|].
+  vm_compute. tauto.
+Qed.
